@@ -24,7 +24,9 @@ RULE = ('exposure: every bit depth 1..32, images with samples at 0, around full 
 ASSUMPTIONS = ['unsigned cast of an in-range non-negative double = floor (NumPy astype); out-of-range casts never occur on the repaired code',
                'np.random.poisson / np.random.normal replaced by their means through the prysm.mathops shim',
                'NumPy row-major reshape / broadcast_to / mean / sum; scipy.ndimage.convolve mode=reflect (modelled index reflection)',
-               'exposure DN compared exactly; binning / Malvar values at 1e-12 relative (exact rationals vs doubles)']
+               'exposure DN compared exactly (one count of slack only for samples within rounding of an integer); binning / Malvar values at 1e-12 relative (exact rationals vs doubles)',
+               'bindown(sum) on int32/uint32/bool arrays relies on NumPy promoting the accumulator to 64 bits (Linux/macOS, or NumPy >= 2 on Windows)',
+               'the real-RNG pass checks range / dtype / shape and an 8-sigma band around the noise-free DN only; the distribution of the draws is not tested']
 
 
 def _impl():
@@ -138,6 +140,102 @@ def pred_dn_frames(inp):
     return ok, f'frames={f}: shape {many.shape}; equal to the single frame: {ok}'
 
 
+def pred_dn_real_rng(inp):
+    """the REAL random generator (seeded): integers of the documented dtype and shape inside [0, 2^bits - 1]"""
+    det = _impl()[0]
+    cfg, img = inp['cfg'], np.asarray(inp['img'], dtype=float)
+    frames = inp.get('frames', 1)
+    d = det.Detector(cfg['dc'], cfg['read_noise'], cfg['bias'], cfg['fwc'], cfg['gain'], cfg['bits'], cfg['t'])
+    np.random.seed(inp['seed'])
+    out = d.expose(img, frames=frames)
+    bits = cfg['bits']
+    want_shape = img.shape if frames == 1 else (frames,) + img.shape
+    want_dtype = np.uint8 if bits <= 8 else (np.uint16 if bits <= 16 else np.uint32)
+    if out.shape != want_shape or out.dtype != want_dtype:
+        return False, f'shape {out.shape} dtype {out.dtype}, documented {want_shape} {np.dtype(want_dtype)}'
+    o = out.astype(np.int64)
+    if o.min() < 0 or o.max() > 2 ** bits - 1:
+        return False, f'DN outside [0, {2 ** bits - 1}]: min {o.min()} max {o.max()}'
+    # bright pixels saturate at full scale, they do not wrap: compare with the noise-free exposure, allowing 8 sigma
+    ref = _expose(dict(cfg, prnu=None, dcnu=None), img).astype(np.int64)
+    sig = (np.sqrt(np.maximum(_signal(dict(cfg, prnu=None, dcnu=None), img) - cfg['bias'], 0)) + cfg['read_noise']) / cfg['gain']
+    last = o if frames == 1 else o[-1]
+    bad = np.abs(last - ref) > 8 * sig + 2
+    if bad.any():
+        k = np.unravel_index(int(np.argmax(bad)), bad.shape)
+        return False, f'pixel {k}: noisy exposure reads {last[k]} DN, noise-free {ref[k]} DN, 8 sigma = {8 * sig[k]:.1f} DN'
+    return True, 'ok'
+
+
+class _Recorder:
+    def __init__(self):
+        self.calls = []
+
+    def poisson(self, lam, size=None):
+        self.calls.append(('poisson', np.array(lam, dtype=float), size))
+        return np.broadcast_to(np.asarray(lam, dtype=float), size).copy()
+
+    def normal(self, loc=0.0, scale=1.0, size=None):
+        self.calls.append(('normal', loc, scale, size))
+        return np.zeros(size) + loc
+
+
+def pred_expose_draws(inp):
+    """what expose asks of the random generator: one Poisson draw with rate (signal + dark) for (frames, npix) samples and one
+    zero-mean normal draw with standard deviation read_noise (not its square) of the same size"""
+    det, _, mo = _impl()
+    cfg, img = inp['cfg'], np.asarray(inp['img'], dtype=float)
+    frames = inp.get('frames', 1)
+    rec = _Recorder()
+
+    class NP:
+        random = rec
+
+        def __getattr__(self, key):
+            return getattr(np, key)
+    d = det.Detector(cfg['dc'], cfg['read_noise'], cfg['bias'], cfg['fwc'], cfg['gain'], cfg['bits'], cfg['t'])
+    old = mo.np._srcmodule
+    mo.np._srcmodule = NP()
+    try:
+        d.expose(img, frames=frames)
+    finally:
+        mo.np._srcmodule = old
+    kinds = [c[0] for c in rec.calls]
+    if kinds != ['poisson', 'normal']:
+        return False, f'random draws requested: {kinds}'
+    _, lam, size = rec.calls[0]
+    want = (img * cfg['t'] + cfg['dc'] * cfg['t']).ravel()
+    if tuple(size) != (frames, img.size) or lam.shape != want.shape or not np.allclose(lam, want, rtol=1e-15, atol=0):
+        return False, f'Poisson draw: size {size} (expected {(frames, img.size)}), rate differs from signal + dark'
+    _, loc, scale, nsize = rec.calls[1]
+    if loc != 0 or scale != cfg['read_noise'] or tuple(nsize) != (frames, img.size):
+        return False, f'read-noise draw: normal(loc={loc!r}, scale={scale!r}, size={nsize}) for read_noise = {cfg["read_noise"]!r}'
+    return True, 'ok'
+
+
+def pred_mode_spellings(inp):
+    """every documented spelling of the modes (any case) does the same thing"""
+    det = _impl()[0]
+    a = np.asarray(inp['a'], dtype=float)
+    f = inp['factor']
+    ref_avg, ref_sum = det.bindown(a, f, 'avg'), det.bindown(a, f, 'sum')
+    for sp in ('average', 'mean', 'AVG', 'Mean'):
+        if not np.array_equal(det.bindown(a, f, sp), ref_avg):
+            return False, f"bindown(mode='{sp}') differs from mode='avg'"
+    if not np.array_equal(det.bindown(a, f, 'SUM'), ref_sum):
+        return False, "bindown(mode='SUM') differs from mode='sum'"
+    if not np.array_equal(det.bindown(a, f), ref_avg):
+        return False, "bindown default mode is not 'avg'"
+    y = ref_sum
+    t_avg, t_sum = np.asarray(det.tile(y, f, 'avg')), np.asarray(det.tile(y, f, 'sum'))
+    for sp in ('average', 'mean'):
+        if not np.array_equal(np.asarray(det.tile(y, f, sp)), t_avg):
+            return False, f"tile(scaling='{sp}') differs from scaling='avg'"
+    if not np.array_equal(np.asarray(det.tile(y, f)), t_sum):
+        return False, "tile default scaling is not 'sum'"
+    return True, 'ok'
+
+
 def _factors(inp, ndim):
     f = inp['factor']
     return f, (tuple([f] * ndim) if isinstance(f, int) else tuple(f))
@@ -249,39 +347,51 @@ def _native(cfa):
 
 def pred_bayer_roundtrip(inp):
     by = _impl()[1]
-    img = np.asarray(inp['img'], dtype=float)
-    cfa = inp['cfa']
+    img = _typed(inp['img'], inp)
+    cfa = inp['cfa']                 # may be upper case: every bayer function takes the layout case-insensitively
     planes = by.decomposite_bayer(img, cfa)
     m, n = img.shape
     if any(p.shape != (m // 2, n // 2) for p in planes):
         return False, f'plane shapes {[p.shape for p in planes]}'
-    nat = _native(cfa)
+    if any(p.dtype != img.dtype for p in planes):
+        return False, f'plane dtypes {[str(p.dtype) for p in planes]} for a {img.dtype} mosaic'
+    nat = _native(cfa.lower())
     for name, p in zip(PL, planes):
         r0, c0 = nat[name]
         if not np.array_equal(p, img[r0::2, c0::2]):
             return False, f'plane {name} is not the samples at row parity {r0}, column parity {c0}'
     back = by.recomposite_bayer(*planes, cfa=cfa)
-    if back.shape != img.shape or not np.array_equal(back, img):
-        return False, 'recomposite_bayer(decomposite_bayer(img)) != img'
+    if back.shape != img.shape or back.dtype != img.dtype or not np.array_equal(back, img):
+        return False, f'recomposite_bayer(decomposite_bayer(img)) != img (dtype {back.dtype} from {img.dtype}, ' \
+                      f'{int((back != img).sum()) if back.shape == img.shape else "shape"} samples differ)'
+    buf = np.full(img.shape, 7, dtype=img.dtype)
+    ret = by.recomposite_bayer(*planes, cfa=cfa, output=buf)
+    if ret is not buf or not np.array_equal(buf, img):
+        return False, 'recomposite_bayer(..., output=buffer) does not fill and return the caller\'s buffer with the mosaic'
     again = by.decomposite_bayer(back, cfa)
     if not all(np.array_equal(a, b) for a, b in zip(again, planes)):
         return False, 'decomposite_bayer(recomposite_bayer(planes)) != planes'
     # the four planes partition the mosaic
-    if sum(p.size for p in planes) != img.size or abs(sum(p.sum() for p in planes) - img.sum()) > 1e-9 * max(1, abs(img).sum()):
+    if sum(p.size for p in planes) != img.size:
         return False, 'planes do not partition the mosaic'
     return True, 'ok'
 
 
 def pred_bayer_composite(inp):
     by = _impl()[1]
-    full = [np.asarray(p, dtype=float) for p in inp['planes']]
+    full = [_typed(p, inp) for p in inp['planes']]
     cfa = inp['cfa']
-    out = by.composite_bayer(*full, cfa=cfa)
-    nat = _native(cfa)
-    for name, p in zip(PL, full):
-        r0, c0 = nat[name]
-        if not np.array_equal(out[r0::2, c0::2], p[r0::2, c0::2]):
-            return False, f'composite_bayer: site of {name} does not hold that plane\'s sample'
+    nat = _native(cfa.lower())
+    buf = np.full(full[0].shape, 3, dtype=full[0].dtype)
+    for out, how in ((by.composite_bayer(*full, cfa=cfa), 'fresh array'), (by.composite_bayer(*full, cfa=cfa, output=buf), 'output=buffer')):
+        if how == 'output=buffer' and out is not buf:
+            return False, 'composite_bayer(..., output=buffer) does not return the caller\'s buffer'
+        if out.dtype != full[0].dtype or out.shape != full[0].shape:
+            return False, f'composite_bayer ({how}): dtype {out.dtype} shape {out.shape} from {full[0].dtype} {full[0].shape}'
+        for name, p in zip(PL, full):
+            r0, c0 = nat[name]
+            if not np.array_equal(out[r0::2, c0::2], p[r0::2, c0::2]):
+                return False, f'composite_bayer ({how}): site of {name} does not hold that plane\'s sample'
     return True, 'ok'
 
 
@@ -339,6 +449,27 @@ def pred_wb(inp):
     return True, 'ok'
 
 
+def pred_wb_post(inp):
+    """wb_postscale: channel k is scaled by its own gain; in safe mode by one common attenuation <= 1 of the three gains"""
+    by = _impl()[1]
+    rgb = np.asarray(inp['rgb'], dtype=float)
+    w = inp['gains']            # wr, wg, wb
+    out = rgb.copy()
+    by.wb_postscale(out, *w)
+    for k, nm in enumerate(('red', 'green', 'blue')):
+        if not np.allclose(out[..., k], rgb[..., k] * w[k], rtol=1e-15, atol=0):
+            return False, f'wb_postscale: the {nm} channel is not scaled by the {nm} gain {w[k]}'
+    if inp.get('saturation') is not None:
+        out2 = rgb.copy()
+        by.wb_postscale(out2, *w, safe=True, saturation=inp['saturation'])
+        with np.errstate(divide='ignore', invalid='ignore'):
+            ratio = out2 / out
+        r = ratio[np.isfinite(ratio)]
+        if r.size and (r.max() > 1 + 1e-12 or (r.max() - r.min()) > 1e-12 * r.max()):
+            return False, f'safe wb_postscale changes the colour balance: attenuation ranges over [{r.min()!r}, {r.max()!r}]'
+    return True, 'ok'
+
+
 def pred_wb_safe(inp):
     """safe white-balance scaling with unit nominal gains leaves no colour plane above its saturation level,
     and leaves the data untouched when nothing is above it"""
@@ -349,8 +480,8 @@ def pred_wb_safe(inp):
         out = img.copy()
         by.wb_prescale(out, 1.0, 1.0, 1.0, 1.0, cfa=inp['cfa'], safe=True, saturation=sat)
         sats = sat if hasattr(sat, '__iter__') else [sat] * 4
-        planes_in = by.decomposite_bayer(img, inp['cfa'])
-        planes = by.decomposite_bayer(out, inp['cfa'])
+        planes_in = by.decomposite_bayer(img, inp['cfa'].lower())
+        planes = by.decomposite_bayer(out, inp['cfa'].lower())
         names = PL
     else:
         rgb = np.asarray(inp['rgb'], dtype=float)
@@ -372,7 +503,8 @@ def pred_wb_safe(inp):
 PREDS = {'dn_range': pred_dn_range, 'dn_monotone': pred_dn_monotone, 'dn_formula': pred_dn_formula, 'dn_frames': pred_dn_frames,
          'bin': pred_bin, 'tile': pred_tile, 'bin_tile_adjoint': pred_adjoint, 'expose_bin': pred_expose_bin, 'bayer_roundtrip': pred_bayer_roundtrip,
          'bayer_composite': pred_bayer_composite, 'malvar_native': pred_malvar_native, 'malvar_constant': pred_malvar_constant,
-         'wb_prescale': pred_wb, 'wb_safe': pred_wb_safe}
+         'wb_prescale': pred_wb, 'wb_safe': pred_wb_safe, 'wb_postscale': pred_wb_post, 'dn_real_rng': pred_dn_real_rng,
+         'expose_draws': pred_expose_draws, 'mode_spellings': pred_mode_spellings}
 
 
 def _run_pred(name, inp):
@@ -515,6 +647,14 @@ def correspondence(ctx):
                         ctx.disagree('expose', desc, f'raised {type(ex).__name__}: {ex}', f'DN {model.ravel()[:6].tolist()}...')
                         return
                     got = out if frames == 1 else out[-1]
+                    if got.shape == model.shape and not np.array_equal(got.astype(np.int64), model):
+                        # a re-associated but equivalent chain may move a sample sitting within rounding of an integer by one count
+                        v = np.clip(np.minimum(_signal(cfg, img), cfg['fwc']) / cfg['gain'], 0, 2 ** cfg['bits'] - 1)
+                        near = np.abs(v - np.rint(v)) <= 1e-9 * np.maximum(1.0, np.abs(v))
+                        diff = got.astype(np.int64) - model
+                        if not ((diff != 0) & ~(near & (np.abs(diff) <= 1))).any():
+                            ctx.notes.append(f'expose: {int((diff != 0).sum())} sample(s) within rounding of an integer differ by one count ({desc})')
+                            return
                     if got.shape != model.shape or not np.array_equal(got.astype(np.int64), model):
                         k = np.unravel_index(int(np.argmax(got.astype(np.int64) != model)), model.shape) if got.shape == model.shape else None
                         ctx.disagree('expose', desc, f'DN[{k}] = {got[k] if k else got.shape} for signal {img[k] if k else ""}',
@@ -535,6 +675,34 @@ def correspondence(ctx):
             _check(ctx, 'dn_monotone', {'cfg': cfg, 'img': ramp.reshape(1, -1).tolist()}, {'bits': bits, 'ramp': True, 'gain': gain},
                    True, f'bits{bits}/ramp')
 
+    # ---------------- images that are not 2-D (a line of pixels, an image cube): the documented shape (frames, *image.shape)
+    for shape in ((5,), (2, 3, 4), (1,), (2, 1, 3, 2)):
+        for frames in (1, 2):
+            bits = int(rng.integers(1, 33))
+            cfg = _cfg(rng, bits, 'scaled')
+            img = _image(rng, cfg, shape)
+            _check(ctx, 'dn_range', {'cfg': cfg, 'img': img.tolist(), 'frames': frames}, {'shape': list(shape), 'frames': frames, 'bits': bits},
+                   True, f'{len(shape)}d/frames{frames}')
+            _check(ctx, 'dn_formula', {'cfg': cfg, 'img': img.tolist()}, {'shape': list(shape), 'bits': bits}, True, f'{len(shape)}d')
+
+    # ---------------- the REAL random generator (seeded): range / dtype / shape, saturation without wrap-around; and what
+    # expose asks of the generator (rate, sigma, sizes)
+    for bits in range(1, 33):
+        for rep in range(ctx.scale(1, 3)):
+            cap = 2.0 ** bits
+            gain = float(rng.choice([0.5, 1.0, 2.0, 3.7]))
+            cfg = {'dc': float(np.round(rng.uniform(0, 20), 2)), 'read_noise': float(np.round(rng.uniform(2.0, 40.0), 2)),
+                   'bias': float(np.round(rng.uniform(-60, 100), 1)), 'fwc': float(rng.choice([1e15, cap * gain * 2.5])),
+                   'gain': gain, 'bits': bits, 't': float(rng.choice([1.0, 0.5])), 'prnu': None, 'dcnu': None}
+            scale = gain / cfg['t']
+            img = np.array([[0.0, 1.0, 0.5 * cap * scale, (cap - 1) * scale], [cap * scale, 1.5 * cap * scale, 50 * cap * scale, 3.0]])
+            frames = 1 if (bits + rep) % 2 else 2
+            desc = {'bits': bits, 'rep': rep, 'frames': frames, 'gain': gain, 'read_noise': cfg['read_noise'], 'bias': cfg['bias']}
+            _check(ctx, 'dn_real_rng', {'cfg': cfg, 'img': img.tolist(), 'frames': frames, 'seed': int(ctx.seed * 1000 + bits * 7 + rep)},
+                   desc, True, f'bits{bits}')
+            if rep == 0:
+                _check(ctx, 'expose_draws', {'cfg': cfg, 'img': img.tolist(), 'frames': frames}, desc, True, f'frames{frames}')
+
     # ---------------- binning / tiling
     bin_shapes = list(BIN_SHAPES)
     for _ in range(ctx.scale(6, 60)):      # random N-D shapes: 1..4 axes, factors 1..4, output lengths 1..4
@@ -546,7 +714,7 @@ def correspondence(ctx):
         fl = [f] * len(shape) if isinstance(f, int) else list(f)
         oshape = tuple(s // k for s, k in zip(shape, fl))
         nt = int(np.prod(shape)) > 1 and any(k > 1 for k in fl)
-        for rep in range(ctx.scale(1, 4)):
+        for rep in range(ctx.scale(1, 4) * (2 if ctx.widen else 1)):
             a = _ints(rng, shape)
             y = _ints(rng, oshape)
             fj = f if isinstance(f, int) else list(f)
@@ -598,6 +766,10 @@ def correspondence(ctx):
                 _check(ctx, 'bin_tile_adjoint', {'a': ai.astype(np.int64).tolist(), 'y': y.tolist(), 'factor': fj, 'dtype': dtn},
                        ddesc, nt, f'{len(shape)}d/{dtn}')
             _check(ctx, 'bin', {'a': a.tolist(), 'factor': fj}, desc, nt, f'{len(shape)}d')
+            if rep == 0:
+                _check(ctx, 'mode_spellings', {'a': a.tolist(), 'factor': fj}, desc, nt, f'{len(shape)}d')
+                C.pure_call(ctx, 'bin', {'a': a.tolist(), 'factor': fj, 'item': 'bin'}, det.bindown, a.copy(), f, 'sum')
+                C.pure_call(ctx, 'tile', {'y': y.tolist(), 'factor': fj, 'item': 'tile'}, det.tile, y.copy(), f, 'sum')
             _check(ctx, 'tile', {'y': y.tolist(), 'factor': fj}, desc, nt, f'{len(shape)}d')
             _check(ctx, 'bin_tile_adjoint', {'a': a.tolist(), 'y': y.tolist(), 'factor': fj}, desc, nt, f'{len(shape)}d')
 
@@ -613,7 +785,7 @@ def correspondence(ctx):
     # ---------------- Bayer
     for (m, n) in BAYER_SHAPES:
         for cfa in ('rggb', 'bggr'):
-            for rep in range(ctx.scale(2, 6)):
+            for rep in range(ctx.scale(2, 6) * (2 if ctx.widen else 1)):
                 img = rng.integers(0, 4096, size=(m, n)).astype(float)
                 desc = {'shape': [m, n], 'cfa': cfa, 'rep': rep}
                 tag = f'{cfa}'
@@ -664,6 +836,25 @@ def correspondence(ctx):
                         ctx.disagree('wb_prescale', desc, 'scaled mosaic differs', 'model')
                 ask(f'prescale {cfa} {m} {n} ' + ' '.join(C.q2w(x) for x in gq) + ' ' + _il(img), chk)
                 _check(ctx, 'bayer_roundtrip', {'img': img.tolist(), 'cfa': cfa}, desc, True, tag)
+                # other containers and values: raw uint16 / uint8 frames, float32, float64 with fractions and > 2^24, upper-case layout
+                dtn = ('uint16', 'float64', 'float32', 'uint8', 'int32')[(rep + m + n) % 5]
+                if dtn == 'float64':
+                    vimg = rng.integers(0, 2 ** 30, size=(m, n)) + rng.random((m, n))
+                    vfull = [rng.integers(0, 2 ** 30, size=(m, n)) + rng.random((m, n)) for _ in range(4)]
+                elif dtn == 'float32':
+                    vimg = (rng.random((m, n)) * 4095).astype(np.float32).astype(float)
+                    vfull = [(rng.random((m, n)) * 4095).astype(np.float32).astype(float) for _ in range(4)]
+                else:
+                    top = int(np.iinfo(np.dtype(dtn)).max)
+                    vimg = rng.integers(0, top, size=(m, n), endpoint=True)
+                    vfull = [rng.integers(0, top, size=(m, n), endpoint=True) for _ in range(4)]
+                ucfa = cfa.upper() if rep % 2 else cfa
+                d2 = dict(desc, dtype=dtn, cfa=ucfa)
+                _check(ctx, 'bayer_roundtrip', {'img': vimg.tolist(), 'cfa': ucfa, 'dtype': dtn}, d2, True, f'{tag}/{dtn}')
+                _check(ctx, 'bayer_composite', {'planes': [p.tolist() for p in vfull], 'cfa': ucfa, 'dtype': dtn}, d2, True, f'{tag}/{dtn}')
+                if rep == 0:
+                    C.pure_call(ctx, 'bayer_roundtrip', {'img': img.tolist(), 'cfa': cfa, 'item': 'bayer_roundtrip'}, by.decomposite_bayer, img.copy(), cfa)
+                    C.pure_call(ctx, 'malvar_native', {'img': img.tolist(), 'cfa': cfa, 'item': 'malvar_native'}, by.demosaic_malvar, img.copy(), cfa)
                 _check(ctx, 'bayer_composite', {'planes': [p.tolist() for p in full], 'cfa': cfa}, desc, True, tag)
                 _check(ctx, 'malvar_native', {'img': img.tolist(), 'cfa': cfa}, desc, True, tag)
                 sat = float(rng.choice([4095.0, 2000.0, 6000.0]))
@@ -671,18 +862,31 @@ def correspondence(ctx):
                                             'saturation': sat if rep % 2 == 0 else [sat, sat * 0.9, sat * 1.1, sat]},
                        dict(desc, gains=gains, saturation=sat), True, tag)
             for hot in range(4):
-                base = rng.integers(0, 1000, size=(m, n)).astype(float)
+                base = rng.integers(1, 1000, size=(m, n)).astype(float)
                 r0, c0 = divmod(hot, 2)
                 base[r0::2, c0::2] *= 3.0          # one colour site well above the others
                 sat = float(rng.choice([900.0, 1500.0, 5000.0]))
-                _check(ctx, 'wb_safe', {'kind': 'pre', 'img': base.tolist(), 'cfa': cfa, 'saturation': sat},
-                       {'shape': [m, n], 'cfa': cfa, 'kind': 'pre', 'hot': hot, 'saturation': sat}, True, f'pre/hot{hot}')
+                # scalar level, and a per-plane list whose entries differ (the hot plane has the LOWEST level)
+                nat = _native(cfa)
+                hotname = [nm for nm in PL if nat[nm] == (r0, c0)][0]
+                sats = [sat * (0.4 if nm == hotname else 1.0 + 0.5 * k) for k, nm in enumerate(PL)]
+                for sv in (sat, sats):
+                    _check(ctx, 'wb_safe', {'kind': 'pre', 'img': base.tolist(), 'cfa': cfa if hot % 2 else cfa.upper(), 'saturation': sv},
+                           {'shape': [m, n], 'cfa': cfa, 'kind': 'pre', 'hot': hot, 'saturation': sv}, True,
+                           f'pre/hot{hot}/{"list" if isinstance(sv, list) else "scalar"}')
             for hot in range(3):
-                rgb = rng.integers(0, 1000, size=(m // 2, n // 2, 3)).astype(float)
+                rgb = rng.integers(1, 1000, size=(m // 2, n // 2, 3)).astype(float)
                 rgb[..., hot] *= 3.0
                 sat = float(rng.choice([900.0, 1500.0, 5000.0]))
-                _check(ctx, 'wb_safe', {'kind': 'post', 'rgb': rgb.tolist(), 'saturation': sat if hot else [sat, sat, sat]},
-                       {'shape': [m // 2, n // 2, 3], 'kind': 'post', 'hot': hot, 'saturation': sat}, True, f'post/hot{hot}')
+                sats = [sat * (0.4 if k == hot else 1.0 + 0.5 * k) for k in range(3)]
+                for sv in (sat, sats):
+                    _check(ctx, 'wb_safe', {'kind': 'post', 'rgb': rgb.tolist(), 'saturation': sv},
+                           {'shape': [m // 2, n // 2, 3], 'kind': 'post', 'hot': hot, 'saturation': sv}, True,
+                           f'post/hot{hot}/{"list" if isinstance(sv, list) else "scalar"}')
+                # distinct, non-unit gains: each channel by its own gain; safe mode = one common attenuation
+                g3 = [float(x) for x in np.round(rng.uniform(0.4, 2.6, 3), 3)]
+                _check(ctx, 'wb_postscale', {'rgb': rgb.tolist(), 'gains': g3, 'saturation': None if hot == 0 else (sat if hot == 1 else sats)},
+                       {'shape': [m // 2, n // 2, 3], 'gains': g3, 'hot': hot}, True, f'hot{hot}')
             _check(ctx, 'malvar_constant', {'shape': [m, n], 'cfa': cfa, 'level': 137.5}, {'shape': [m, n], 'cfa': cfa}, True, cfa)
 
     rows = C.lean_driver('C16', lines)
@@ -733,6 +937,14 @@ def search(ctx, hints):
                 ok, detail = _run_pred(name, inp)
                 if not ok:
                     return found(name, inp, detail)
+    for bits in (8, 12, 16):
+        cfg = {'dc': 1.0, 'read_noise': 5.0, 'bias': -20.0, 'fwc': 1e18, 'gain': 1.0, 'bits': bits, 't': 1.0, 'prnu': None, 'dcnu': None}
+        img = [[0.0, 3.0, float(2 ** bits - 1), float(2 ** bits), float(40 * 2 ** bits)]]
+        for name, inp in (('expose_draws', {'cfg': cfg, 'img': img, 'frames': 2}), ('dn_real_rng', {'cfg': cfg, 'img': img, 'frames': 1, 'seed': 1}),
+                          ('dn_real_rng', {'cfg': cfg, 'img': img, 'frames': 3, 'seed': 2})):
+            ok, detail = _run_pred(name, inp)
+            if not ok:
+                return found(name, inp, detail)
     # binning / tiling, small shapes
     for (shape, f) in sorted(BIN_SHAPES, key=lambda p: int(np.prod(p[0]))):
         fl = [f] * len(shape) if isinstance(f, int) else list(f)
@@ -764,7 +976,16 @@ def search(ctx, hints):
                               ('malvar_native', {'img': img.tolist(), 'cfa': cfa}),
                               ('malvar_constant', {'shape': [m, n], 'cfa': cfa, 'level': 10.0}),
                               ('wb_prescale', {'img': img.tolist(), 'cfa': cfa, 'gains': [2.0, 1.0, 1.25, 1.5], 'saturation': 150.0}),
-                              ('wb_safe', {'kind': 'pre', 'img': img.tolist(), 'cfa': cfa, 'saturation': 50.0})) + tuple(
+                              ('wb_safe', {'kind': 'pre', 'img': img.tolist(), 'cfa': cfa, 'saturation': 50.0}),
+                              ('wb_safe', {'kind': 'pre', 'img': img.tolist(), 'cfa': cfa.upper(), 'saturation': [50.0, 40.0, 30.0, 20.0]}),
+                              ('bayer_roundtrip', {'img': (img * 4099.25).tolist(), 'cfa': cfa.upper(), 'dtype': 'float64'}),
+                              ('bayer_roundtrip', {'img': (img * 600).astype(int).tolist(), 'cfa': cfa, 'dtype': 'uint16'}),
+                              ('bayer_composite', {'planes': [(p * 4099.25).tolist() for p in full], 'cfa': cfa, 'dtype': 'float64'}),
+                              ('wb_postscale', {'rgb': np.stack([p[:m // 2 + 1, :n // 2 + 1] for p in full[:3]], axis=2).tolist(),
+                                                'gains': [2.0, 1.25, 0.5], 'saturation': [60.0, 40.0, 30.0]})) + tuple(
+                                  ('wb_safe', {'kind': 'post', 'saturation': [50.0 * (0.4 if k == hot else 1 + k) for k in range(3)], 'rgb': np.stack(
+                                      [np.where(k == hot, 3.0, 0.3) * full[k][:m // 2 + 1, :n // 2 + 1] for k in range(3)], axis=2).tolist()})
+                                  for hot in range(3)) + tuple(
                                   ('wb_safe', {'kind': 'post', 'saturation': 50.0, 'rgb': np.stack(
                                       [np.where(k == hot, 3.0, 0.3) * full[k][:m // 2 + 1, :n // 2 + 1] for k in range(3)], axis=2).tolist()})
                                   for hot in range(3)):
@@ -780,9 +1001,9 @@ def replay(inp):
     if name not in PREDS:
         print('no replay routine for item', name)
         return False
-    brief = {k: v for k, v in inp.items() if k in ('cfg', 'factor', 'cfa', 'frames', 'gains', 'saturation', 'shape', 'level', 'dtype')}
+    brief = {k: v for k, v in inp.items() if k in ('cfg', 'factor', 'cfa', 'frames', 'gains', 'saturation', 'shape', 'level', 'dtype', 'seed', 'kind')}
     print(f'replaying {name}: {brief}')
-    if name.startswith('dn_'):
+    if name.startswith('dn_') and name != 'dn_real_rng':
         try:
             out = _expose(inp['cfg'], inp['img'], inp.get('frames', 1) if name == 'dn_range' else 1)
             print('signal [e-/s]:', np.asarray(inp['img']).ravel()[:12].tolist())
@@ -795,23 +1016,32 @@ def replay(inp):
 
 
 MANIFEST_ENTRY = {
-    'technique': 'Lean 4 proof (ordered-field / floor reasoning, finite-sum bijections, finite table case analysis) over '
+    'technique': 'Lean 4 proof (ordered-field / floor reasoning, induction over the list of axes, finite table case analysis) over '
                  'translator-generated definitions + exact-integer correspondence of an executable model with the real functions',
-    'text': ('PROVED over every linearly ordered field with floor (Q, R): with the random draws replaced by their means, the DN of '
-             'Detector.expose lies in [0, 2^bits-1] for every bit depth 1..32 and EVERY input (any image value, gain, bias, full well, '
-             'non-uniformity); DN is non-decreasing in the incident signal through and beyond saturation; DN equals the floor of the '
-             'clipped gain-scaled signal; saturated pixels read 2^bits-1. For every number of axes, shape and per-axis factors: the '
-             'block index maps are a bijection, bindown(sum) and tile(sum) conserve the total, bindown(avg) and tile(avg) conserve the '
-             'level, bindown(avg)/tile(sum) and bindown(sum)/tile(avg) are adjoint, bindown undoes tile. Bayer: the four slices '
-             'partition every even-shaped mosaic, recomposite(decomposite)=id and decomposite(recomposite)=id for both layouts, '
-             'composite and wb_prescale act on the native site of each colour, Malvar copies the raw sample at the native site of '
-             'each channel, the four kernels are 5x5, point-symmetric and sum to 1 after normalisation, a uniform mosaic demosaicks to the '
-             'same level everywhere; safe white-balance limiting leaves no inspected plane above saturation (any plane list). TRANSLATED from the source '
-             'each run: the ADC ceiling, container-width chain and the order of full-well clip / gain / ADC clips of expose (statement '
-             'by statement), bindown/tile shape formulas, reduction axes and scale factors, the Bayer slices, plane/site/gain tables, '
-             'Malvar source table, kernels and divisor, the safe-white-balance loop step and the number of planes it inspects. MODELLED AND COMPARED: exposure on doubles (DN compared exactly, all bit '
-             'depths, maps, frames), N-D binning/tiling and the full Malvar demosaick (reflect boundary) on exact rationals.'),
-    'note': ('Trusted: the unsigned cast of an in-range double is floor; poisson/normal are replaced by their means (statistics of '
-             'the draws are not covered); NumPy reshape/broadcast/ndimage.convolve semantics (compared). Not covered: lut, '
-             'assemble_superresolved, non-2-D aerial images.'),
+    'text': ('PROVED over every linearly ordered field with floor (Q, R), for the noise-free chain (random draws replaced by their '
+             'means; the unsigned cast modelled as floor mod 2^w): the DN of Detector.expose lies in [0, 2^bits-1] for every bit '
+             'depth 1..32 and every input; DN is non-decreasing in the incident signal through and beyond saturation; DN equals the '
+             'floor of the clipped gain-scaled signal; saturated pixels read 2^bits-1. Binning / tiling, stated over the functions '
+             'the driver executes (totL/binL/tileL; binND/tileND are these read through row-major index maps - bridge theorem), by '
+             'induction over the axes, for every number of axes, shape and factor list: bindown(sum) and tile(sum) conserve the '
+             'total, bindown(avg) and tile(avg) conserve the level, bindown(avg)/tile(sum) and bindown(sum)/tile(avg) are adjoint, '
+             'bindown undoes tile (over a field: integer containers are covered by the correspondence only). Bayer (sample '
+             'positions over N x N, no shape involved; the reflect boundary and shapes are covered by the correspondence only): '
+             'the four slices partition the samples, recomposite(decomposite)=id and back for both layouts, composite / wb_prescale '
+             '/ wb_postscale act on the native site / channel of each colour, Malvar copies the raw sample at the native site, '
+             'kernels 5x5, symmetric, unit sum, uniform mosaic -> uniform image; safe white balance WITH UNIT GAINS leaves no '
+             'inspected plane above its saturation level. TRANSLATED each run: ADC ceiling, container-width chain, the clip / gain / '
+             'clip chain of expose statement by statement (nothing but shape handling / lut / return may follow the cast), '
+             'bindown/tile shape formulas, reduction axes, scale factors, Bayer slices and plane/site/gain tables (pre and post), '
+             'Malvar source table, kernels, divisor, the safe-limiting loop step. RECOGNISER FACTS only (no Lean content): output '
+             'shape (frames, *image.shape), interleaved views, mode tables, planes inspected / per-plane saturation / gains divided. '
+             'MODELLED AND COMPARED (driver runs the HAND model): exposure on doubles (DN exact, bits 1..32, maps, frames, 1-D..4-D '
+             'images), container rejection for bits > 32, N-D binning/tiling on floats and on uint8/16/32, int8/16/32, bool arrays '
+             'at the container ends, frames from expose sum-binned, all mode spellings, full Malvar demosaick on rationals, Bayer '
+             'functions on uint8/uint16/int32/float32/float64 (fractions, > 2^24) with dtype preservation, output= buffers, '
+             'upper-case layouts, distinct gains and per-plane saturation lists; one pass per bit depth with the REAL seeded RNG '
+             '(range, dtype, shape, 8-sigma band) and a recording of what is asked of the RNG (rate, sigma, sizes).'),
+    'note': ('Trusted: the unsigned cast of an in-range double is floor; NumPy reshape/broadcast/ndimage.convolve semantics '
+             '(compared); 64-bit accumulation of integer sums. Not covered: the distribution of the random draws, lut, '
+             'assemble_superresolved, safe white balance with non-unit gains (nothing is promised by the code).'),
 }
